@@ -864,7 +864,11 @@ impl<K: KeyT, V: ValT> Subject for WtlfuSubj<K, V> {
             let mut b = est.clone();
             b.try_reset();
             b.increment(K::q(k));
-            p.est_after_access.push(vec![est_snap(&a.verif_state()), est_snap(&b.verif_state())]);
+            // ... or followed by one: the statement fixes neither whether the sample tick exists nor its order
+            let mut c3 = est.clone();
+            c3.increment(K::q(k));
+            c3.try_reset();
+            p.est_after_access.push(vec![est_snap(&a.verif_state()), est_snap(&b.verif_state()), est_snap(&c3.verif_state())]);
         }
         p
     }
